@@ -187,7 +187,26 @@ pub fn explore(unit: &str, bounds: &Bounds, run: RunFn, known: &(dyn Fn(&str) ->
                 };
                 let Some((my_cost, prefix)) = prefix else { return };
                 let plen = prefix.len();
-                let x = run(&prefix, false);
+                // a panic in the harness' own code (not in the code under test, whose panics are caught and judged inside
+                // `run`) must not take the process down: it is a machinery error of this unit
+                let x = match std::panic::catch_unwind(std::panic::AssertUnwindSafe(|| run(&prefix, false))) {
+                    Ok(x) => x,
+                    Err(e) => {
+                        let msg = e.downcast_ref::<String>().cloned().or_else(|| e.downcast_ref::<&str>().map(|s| s.to_string())).unwrap_or_else(|| "?".into());
+                        let mut r = report.lock().unwrap();
+                        let u = r.unit.clone();
+                        r.machinery.push(format!("unit {}: the harness panicked while running prefix {:?}: {}", u, prefix, msg));
+                        r.completed = false;
+                        drop(r);
+                        stop.store(true, Ordering::Relaxed);
+                        let (m, cv) = &*queue;
+                        let mut q = m.lock().unwrap();
+                        q.in_flight -= 1;
+                        q.in_flight_cost[my_cost] -= 1;
+                        cv.notify_all();
+                        continue;
+                    }
+                };
                 let n = execs.fetch_add(1, Ordering::Relaxed) + 1;
                 let choices: Vec<u32> = x.points.iter().map(|p| p.chosen).collect();
                 let mut children: Vec<(usize, Vec<u32>)> = vec![];
